@@ -1,7 +1,10 @@
 package chainh
 
 import (
+	"compress/gzip"
+	"encoding/csv"
 	"fmt"
+	"math/rand"
 	"os"
 
 	"github.com/bitcoin-sv/block-headers-service/config"
@@ -59,6 +62,9 @@ func opLongImport() error {
 		}
 	})
 	if msg == "" {
+		msg = rp.malformedRowsInLongFile(name, c, seed)
+	}
+	if msg == "" {
 		msg = rp.exportAfterFailedExport(seed)
 	}
 	return os.WriteFile(os.Getenv("VERIF_OUT"), []byte(fmt.Sprintf(`{"mismatch":%q,"rows":%d}`, msg, n+1)), 0o644)
@@ -112,4 +118,88 @@ func (rp *Replayer) exportAfterFailedExport(seed int64) string {
 		}
 	})
 	return msg
+}
+
+// malformedRowsInLongFile: one malformed row in a file longer than the importer's batch size, at the rows around the batch
+// boundaries (the importer commits 500 rows at a time), at the last row and at a random one, with the newest checkpoint
+// BELOW the bad row: start-up is refused, and a second start on the same database is refused as well.
+func (rp *Replayer) malformedRowsInLongFile(name string, c *Concrete, seed int64) string {
+	f, err := os.Open(name)
+	if err != nil {
+		return "HARNESS: " + err.Error()
+	}
+	gz, err := gzip.NewReader(f)
+	if err != nil {
+		f.Close()
+		return "HARNESS: " + err.Error()
+	}
+	all, err := csv.NewReader(gz).ReadAll()
+	f.Close()
+	if err != nil || len(all) < 3 {
+		return fmt.Sprintf("HARNESS: exported file unreadable: %v (%d lines)", err, len(all))
+	}
+	head, rows := all[0], all[1:]
+	rng := rand.New(rand.NewSource(seed*31 + 5))
+	positions := []int{499, 500, 501, 999, 1000, 1001, 1500, 2000, len(rows) - 1, 1 + rng.Intn(len(rows)-1)}
+	for pi, pos := range positions {
+		if pos < 2 || pos >= len(rows) {
+			continue
+		}
+		kind := (pi + int(seed)) % 5
+		bad := make([][]string, len(rows))
+		copy(bad, rows)
+		rw := append([]string(nil), rows[pos]...)
+		what := ""
+		switch kind {
+		case 0:
+			rw[2], what = rw[2]+"x", "a nonce that is not a number"
+		case 1:
+			rw, what = rw[:4], "a row with 4 columns"
+		case 2:
+			rw[1], what = "zz"+rw[1][2:], "a merkle root that is not hexadecimal"
+		case 3:
+			rw[4], what = "", "an empty timestamp"
+		case 4:
+			rw[0], what = "1.5", "a version that is not an integer"
+		}
+		bad[pos] = rw
+		fn := fmt.Sprintf("long-bad-%d.csv.gz", pi)
+		out, err := os.Create(fn)
+		if err != nil {
+			return "HARNESS: " + err.Error()
+		}
+		zw := gzip.NewWriter(out)
+		w := csv.NewWriter(zw)
+		_ = w.Write(head)
+		_ = w.WriteAll(bad)
+		w.Flush()
+		_ = zw.Close()
+		_ = out.Close()
+		cpH := pos / 2
+		cph := chainhash.Hash(c.hashBytes(cpH))
+		config.Checkpoints = []chaincfg.Checkpoint{{Height: int32(cpH), Hash: &cph}}
+		dbn := fmt.Sprintf("long-bad-%d.db", pi)
+		cfg := NewConfig(dbn)
+		cfg.Db.PreparedDb, cfg.Db.PreparedDbFilePath = true, fn
+		desc := fmt.Sprintf("%s at row %d of a %d-row file (newest checkpoint at height %d)", what, pos, len(rows), cpH)
+		msg := ""
+		if db, err := database.Init(cfg, &rp.S.log); err == nil {
+			var cnt int
+			_ = db.Get(&cnt, "SELECT COUNT(*) FROM headers")
+			_ = db.Close()
+			msg = fmt.Sprintf("%s: expected start-up refused, got import accepted, serving %d headers", desc, cnt)
+		} else if db2, err2 := database.Init(cfg, &rp.S.log); err2 == nil {
+			var cnt int
+			_ = db2.Get(&cnt, "SELECT COUNT(*) FROM headers")
+			_ = db2.Close()
+			msg = fmt.Sprintf("%s: the first start is refused, expected the second start on the same database refused as well, got started, serving %d leftover headers", desc, cnt)
+		}
+		os.Remove(fn)
+		os.Remove(dbn)
+		os.Remove(dbn + "-journal")
+		if msg != "" {
+			return msg
+		}
+	}
+	return ""
 }
